@@ -705,7 +705,9 @@ async def read_share_chunk(
         headers=Headers(
             # Ranges in HTTP are _inclusive_, Python's convention is exclusive,
             # but Range constructor does that the conversion for us.
-            {"range": [Range("bytes", [(offset, offset + length)]).to_header()]}
+            # (A zero-length read cannot be expressed: ask for one byte, so
+            # that a missing share is still noticed, and return none of it.)
+            {"range": [Range("bytes", [(offset, offset + max(length, 1))]).to_header()]}
         ),
         unbuffered=True,  # Don't buffer the response in memory.
     )
@@ -732,7 +734,7 @@ async def read_share_chunk(
                 "Content-Range was missing, invalid, or in format we don't support"
             )
         supposed_length = content_range.stop - content_range.start
-        if supposed_length > length:
+        if supposed_length > max(length, 1):
             raise ValueError("Server sent more than we asked for?!")
         # It might also send less than we asked for. That's (probably) OK, e.g.
         # if we went past the end of the file.
@@ -747,7 +749,7 @@ async def read_share_chunk(
                 + f"didn't match Content-Range header ({supposed_length})"
             )
         body.seek(0)
-        return body.read()
+        return body.read(length)
     else:
         # Technically HTTP allows sending an OK with full body under these
         # circumstances, but the server is not designed to do that so we ignore
